@@ -9,15 +9,6 @@ calls followed by a drain returns the concatenation of the parts.
 -/
 namespace Hls.Storage
 
-/-- The cursor is usable: `curPos` does not exceed the current part (Go would panic on
-    `buf[r.curPos:]` otherwise); past the last part the position is 0. -/
-def RCur.ok (parts : List Bytes) (c : RCur) : Prop :=
-  c.curPos ≤ (parts.getD c.curPart []).length
-
-/-- The bytes that are still ahead of the cursor. -/
-def remaining (parts : List Bytes) (c : RCur) : Bytes :=
-  ((parts.drop c.curPart).flatten).drop c.curPos
-
 theorem remaining_init (parts : List Bytes) : remaining parts {} = parts.flatten := by
   simp [remaining]
 
